@@ -159,8 +159,11 @@ func H_C14_stop_vs_resume() {
 	go func() { serr = w.Stop(); stopped = true }()
 	go func() { w.Resume() }()
 	go func() { w.releaseWaiters(w.curProcessing.Add(^uint32(0))) }() // the invocation finishes
-	vAtQuiescence(func() {
-		vReach("C14.stop-vs-resume.quiescent")
+	vAtAnyCut(func() {
+		// a safety property of every reachable state: Stop has returned nil => the worker is Stopped
+		if stopped {
+			vReach("C14.stop-vs-resume.stop-returned")
+		}
 		vAssert("C14.stopped-after-stop", !stopped || serr != nil || w.IsStopped())
 	})
 }
@@ -300,6 +303,11 @@ func H_C18_pool_size_m() {
 	vPrologueEnd()
 	go func() { mSignalDispatcher(w) }()
 	go func() { q.Add(1) }()
+	vAtAnyCut(func() {
+		// with a constant concurrency of 1 a second pool goroutine is never needed: the finishing goroutine is
+		// back in the idle list before its slot is given up
+		vAssert("C18.pool-size-m.never-more-goroutines", vLibGoroutinesAlive() <= 1)
+	})
 	vAtQuiescence(func() {
 		vReach("C18.pool-size-m.quiescent")
 		vAssert("C18.pool-size-m.max-goroutines", vLibGoroutinesAlive() <= 1 && w.NumIdleWorkers() <= 1)
